@@ -1,5 +1,7 @@
 """
 The checks of the properties decided on DdsEval by history generation + replay.
+One table entry per property: shapes, plans, variants (store kind / layouts / import form),
+stage and failure alphabets, oracle, non-triviality rule.
 """
 import copy
 import json
@@ -11,57 +13,156 @@ from . import common, evalfam, oracles, shapes as shp
 from .common import Report
 from .shapes import Shape
 
-ORACLES: Dict[str, Callable[..., List[oracles.Viol]]] = {
-    "C01": oracles.c01,
-    "C02": oracles.c02,
-    "C04": oracles.c04,
-}
-
-RULES = {
-    "C01": "history = TLC-enumerated complete plan over one shape; non-trivial when the specification "
-           "predicts at least one node served from the store (a stale result would be observable); "
-           "distinct by (shape, sequence of edits/evaluations, store kind, realisation)",
-    "C02": "history as C01; non-trivial when it contains an evaluation after an edit / revert / restart / "
-           "style switch for which the specification predicts at least one kept node NOT executed",
-    "C04": "history as C01; every evaluation is followed by a second process loading every committed path; "
-           "non-trivial when at least one path is loaded that the latest evaluation did not keep or re-keep",
-}
-
-
-def _nontrivial(prop: str, hist: List[Dict[str, Any]]) -> bool:
-    ev = [r for r in hist if r["op"] == "eval"]
-    if prop in ("C01", "C02"):
-        # some evaluation after the first one in which something kept was served
-        for r in ev[1:]:
-            kept = len(r["req"])
-            if kept and len(r["stored"]) < kept:
-                return True
-        return False
-    if prop == "C04":
-        return any(len(r["served"]) > 0 for r in ev[1:])
-    return True
+P_EDIT = [
+    ["eval", "edit", "eval", "revert", "eval"],
+    ["eval", "edit", "eval", "restart", "eval"],
+    ["eval", "restart", "eval2", "eval"],
+    ["eval2", "edit", "eval2"],
+]
+P_EDIT_THOROUGH = P_EDIT + [["eval", "edit", "edit", "eval", "revert", "eval"],
+                            ["eval", "edit", "eval", "edit", "eval"]]
+P_LOAD = [
+    ["eval", "edit", "eval", "revert", "eval"],
+    ["eval2", "edit", "eval2", "restart", "eval2"],
+    ["evalB"],
+    ["eval", "evalB", "edit", "evalB", "eval", "evalB"],
+    ["eval", "evalB", "edit", "eval", "restart", "evalB", "evalB"],
+]
+P_FAIL = [
+    ["fail", "eval", "unfail", "eval", "eval"],
+    ["eval", "edit", "fail", "eval", "unfail", "eval"],
+    ["fail", "eval2", "unfail", "eval2"],
+    ["fail", "eval", "eval", "unfail", "eval"],
+]
+P_STAGES = [
+    ["evalS", "eval2", "eval2"],
+    ["eval2", "edit", "evalS", "eval2"],
+    ["evalS", "evalS", "eval"],
+]
 
 
-def variants(prop: str, tier: str) -> List[Dict[str, Any]]:
-    """Alias / module import forms change the text of the caller between layouts (the call
-    is spelled differently), so Relayout is only enabled (>= 2 layouts) with plain from-imports.
-    (store kind of the spec run, store kind on the real side, layouts, import form, fraction)"""
-    if prop == "C04":
-        v = [dict(spec_store="local", real_store="local", layouts=["one", "split"], imp="from", frac=0.5),
-             dict(spec_store="local", real_store="local+lru", layouts=["split"], imp="from_as", frac=0.25)]
-        return v
-    v = [dict(spec_store="local", real_store="local", layouts=["one", "split"], imp="from", frac=1.0),
-         dict(spec_store="local", real_store="local+lru", layouts=["split"], imp="from_as", frac=0.34),
-         dict(spec_store="memory", real_store="memory", layouts=["one", "moved"], imp="from", frac=0.34)]
-    if prop == "C01":
-        v.append(dict(spec_store="noop", real_store="noop", layouts=["split"], imp="module", frac=0.2))
+def _v(spec_store, real_store, layouts, imp, frac):
+    return dict(spec_store=spec_store, real_store=real_store, layouts=layouts, imp=imp, frac=frac)
+
+
+def std_variants(tier: str, noop: bool) -> List[Dict[str, Any]]:
+    """Alias / module import forms change the text of the caller between layouts (the call is
+    spelled differently), so Relayout is only enabled (>= 2 layouts) with plain from-imports."""
+    v = [_v("local", "local", ["one", "split"], "from", 1.0),
+         _v("local", "local+lru", ["split"], "from_as", 0.34),
+         _v("memory", "memory", ["one", "moved"], "from", 0.34)]
+    if noop:
+        v.append(_v("noop", "noop", ["split"], "module", 0.2))
     if tier == "thorough":
         for x in v:
             x["frac"] = 1.0
-        v.append(dict(spec_store="local", real_store="local", layouts=["deep"], imp="module_as", frac=1.0))
-        v.append(dict(spec_store="memory", real_store="memory+lru", layouts=["split"], imp="module", frac=1.0))
-        v.append(dict(spec_store="local", real_store="local", layouts=["split", "deep", "one"], imp="from", frac=1.0))
+        v += [_v("local", "local", ["deep"], "module_as", 1.0),
+              _v("memory", "memory+lru", ["split"], "module", 1.0),
+              _v("local", "local", ["split", "deep", "one"], "from", 1.0)]
     return v
+
+
+def small_variants(tier: str) -> List[Dict[str, Any]]:
+    v = [_v("local", "local", ["one"], "from", 1.0),
+         _v("local", "local+lru", ["split"], "from_as", 0.5),
+         _v("memory", "memory", ["one"], "from", 0.5)]
+    if tier == "thorough":
+        for x in v:
+            x["frac"] = 1.0
+        v.append(_v("memory", "memory+lru", ["deep"], "module_as", 1.0))
+    return v
+
+
+def _nt_served(hist) -> bool:
+    ev = [r for r in hist if r["op"] == "eval"]
+    return any(len(r["req"]) and len(r["stored"]) < len(r["req"]) for r in ev[1:])
+
+
+FAMILY: Dict[str, Dict[str, Any]] = {
+    "C01": dict(
+        shapes=lambda tier: shp.quick_shapes(), plans=lambda tier: P_EDIT if tier == "quick" else P_EDIT_THOROUGH,
+        variants=lambda tier: std_variants(tier, True), oracle=oracles.c01, nontrivial=_nt_served,
+        rule="history = TLC-enumerated complete plan over one shape; non-trivial when the specification predicts at "
+             "least one node served from the store in a later evaluation (a stale result would be observable); "
+             "distinct by (shape, sequence of edits/evaluations, store kind, realisation)"),
+    "C02": dict(
+        shapes=lambda tier: shp.quick_shapes(), plans=lambda tier: P_EDIT if tier == "quick" else P_EDIT_THOROUGH,
+        variants=lambda tier: std_variants(tier, False), oracle=oracles.c02, nontrivial=_nt_served, store_kw=True,
+        rule="history as C01; non-trivial when it contains an evaluation after an edit / revert / restart / style "
+             "switch for which the specification predicts at least one kept node NOT executed"),
+    "C04": dict(
+        shapes=lambda tier: shp.quick_shapes(), plans=lambda tier: P_EDIT if tier == "quick" else P_EDIT_THOROUGH,
+        variants=lambda tier: [_v("local", "local", ["one", "split"], "from", 0.5 if tier == "quick" else 1.0),
+                               _v("local", "local+lru", ["split"], "from_as", 0.25 if tier == "quick" else 1.0)],
+        oracle=oracles.c04, loads=True, store_kw=True,
+        nontrivial=lambda hist: any(len(r["served"]) > 0 for r in [x for x in hist if x["op"] == "eval"][1:]),
+        rule="history as C01; every evaluation is followed by a second process loading every committed path; "
+             "non-trivial when a later evaluation leaves at least one committed path to load"),
+    "C09": dict(
+        shapes=lambda tier: shp.load_shapes(), plans=lambda tier: P_LOAD,
+        variants=small_variants, oracle=oracles.c09,
+        nontrivial=lambda hist: any(r["op"] == "eval" and (r["err"] not in ("", []) or len(r["log"]) > 0) for r in hist[1:]),
+        rule="history over a shape with dds.load (placement x producer kind x producer timing); non-trivial when a later "
+             "evaluation executes a reader or must be rejected"),
+    "C10": dict(
+        shapes=lambda tier: shp.core_shapes() + shp.load_shapes()[:2], plans=lambda tier: P_FAIL,
+        variants=small_variants, oracle=oracles.c10,
+        fail_classes=lambda tier: ["Exception", "KeyboardInterrupt"] + (["SystemExit", "ValueError"] if tier == "thorough" else []),
+        nontrivial=lambda hist: any(r["op"] == "eval" and isinstance(r["err"], list) and r["err"][:1] == ["raise"] for r in hist),
+        rule="history with one function switched to fail (every function of the shape x exception class); non-trivial "
+             "when the failing body is actually reached (the specification predicts the raise)"),
+    "C15": dict(
+        shapes=lambda tier: shp.core_shapes() + shp.load_shapes()[:1], plans=lambda tier: P_STAGES,
+        variants=small_variants, oracle=oracles.c15, stages=lambda tier: [1, 2, 3, 4, 5], extra=lambda rep, tier: c15_extra(rep, tier),
+        nontrivial=lambda hist: any(r["op"] == "eval" and r.get("stages", 5) < 5 for r in hist),
+        rule="history containing a stage-restricted dds.eval (every prefix of the stage order) before / after full "
+             "evaluations; non-trivial when it contains a restricted evaluation"),
+}
+
+
+def c15_extra(rep: Report, tier: str) -> None:
+    """Stage lists that are not a prefix of the stage order are refused with a DDS error and run
+    nothing; every spelling (lower / upper / mixed case, enum members) of a valid prefix is accepted."""
+    from . import replay, worker
+    import dds
+    shape = shp.core_shapes()[0]
+    prog = {"body": {f: 0 for f in shape.funs}, "cos": {f: 0 for f in shape.funs},
+            "vval": {v: 0 for v in shape.vars}, "arg": [], "unrel": 0, "ext": 0, "layout": "one",
+            "fail": {f: "no" for f in shape.funs}}
+    root = common.sub_scratch("c15x")
+    from . import materialize as mat
+    files = mat.files_of(shape, prog)
+    PS = "dds.ProcessingStage."
+    cases = [
+        (["eval"], False), (["analysis", "eval"], False), (["path_commit"], False), (["bogus"], False),
+        (["store_inspect", "analysis"], False), ([3], False),
+        (["ANALYSIS"], True), (["Analysis", "Store_Inspect"], True), (["analysis", "STORE_INSPECT", "eval"], True),
+        (["@ANALYSIS"], True), (["@ANALYSIS", "store_inspect", "@EVAL", "store_commit"], True),
+    ]
+    steps = [{"op": "eval", "h": i, "style": "eval", "root": shape.root, "module": mat.module_of(shape, "one")[shape.root],
+              "root_path": shape.root_path, "kwargs": {"dds_stages": c}} for (i, (c, _)) in enumerate(cases)]
+    seg = {"root_dir": root, "mode": "dds", "modules": sorted(set(mat.module_of(shape, "one").values())),
+           "store": replay.store_conf("local", root), "steps": steps, "enum_stages": True}
+    mat.write_tree(root, files)
+    res = worker.run_forked(seg)
+    if res.get("fatal"):
+        raise common.MachineryError("C15 stage-list probe failed: %s" % (res["fatal"],))
+    n = 0
+    for ((c, valid), o) in zip(cases, res["steps"]):
+        n += 1
+        mut = [op for op in o["ops"] if op[0] in ("store", "sync")]
+        if valid:
+            if o["err"] is not None:
+                rep.violation("C15|valid-stage-list-refused|%s" % c, {"stages": c, "observed": o["err"]})
+            elif len(c) < 5 and [op for op in o["ops"] if op[0] == "sync"]:
+                rep.violation("C15|committed-without-commit-stage|spelling=%s" % c, {"stages": c})
+        else:
+            if o["err"] is None or not o["err"].get("dds"):
+                rep.violation("C15|invalid-stage-list|%s|got=%s" % (c, (o["err"] or {}).get("type")),
+                              {"stages": c, "observed": o["err"], "result": o["result"]})
+            elif o["log"] or mut:
+                rep.violation("C15|invalid-stage-list-ran|%s" % c, {"stages": c, "log": o["log"], "ops": mut})
+    rep.cov["stage_list_spellings_probed"] = n
 
 
 def _shapes_for(S: List[Shape], store_kind: str) -> List[Shape]:
@@ -73,20 +174,22 @@ def _shapes_for(S: List[Shape], store_kind: str) -> List[Shape]:
 
 
 def run_family(prop: str, tier: str) -> int:
+    fam = FAMILY[prop]
     rep = Report(prop, tier)
     evalfam.import_dds()
-    S = shp.quick_shapes()
-    plans = evalfam.QUICK_PLANS
+    S = fam["shapes"](tier)
+    plans = fam["plans"](tier)
+    variants = fam["variants"](tier)
+    stages = fam.get("stages", lambda t: [5])(tier)
+    fails = fam.get("fail_classes", lambda t: [])(tier)
     max_ver = 1
-    if tier == "thorough":
-        plans = plans + [["eval", "edit", "edit", "eval", "revert", "eval"],
-                         ["eval", "edit", "eval", "edit", "eval"]]
-    oracle = ORACLES[prop]
+    oracle = fam["oracle"]
     # 1. the design: every invariant / action property of the machine, exhaustively
     states = trans = 0
     kinds_seen: Dict[str, int] = {}
-    for sk in sorted(set(v["spec_store"] for v in variants(prop, tier))):
-        r = evalfam.tlc_design(_shapes_for(S, sk), plans, max_ver, sk, "package", ["one", "split"], name="design_" + sk)
+    for sk in sorted(set(v["spec_store"] for v in variants)):
+        r = evalfam.tlc_design(_shapes_for(S, sk), plans, max_ver, sk, "package", ["one", "split"],
+                               name="design_" + sk, stages=stages, fail_classes=fails)
         states += r.distinct
         trans += r.generated
     rep.cov["states"] = states
@@ -96,14 +199,15 @@ def run_family(prop: str, tier: str) -> int:
     total = 0
     nontriv = set()
     ref_checked = 0
-    t_budget = 75 if tier == "quick" else 1200
+    t_budget = 70 if tier == "quick" else 1500
     t0 = time.time()
     gens: Dict[Tuple[str, Tuple[str, ...]], List[Dict[str, Any]]] = {}
-    for (vi, v) in enumerate(variants(prop, tier)):
+    for (vi, v) in enumerate(variants):
         key = (v["spec_store"], tuple(v["layouts"]))
         if key not in gens:
-            (_, hs) = evalfam.tlc_generate(_shapes_for(S, v["spec_store"]), plans, max_ver, v["spec_store"], "package", v["layouts"],
-                                           name="gen%d_" % vi)
+            (_, hs) = evalfam.tlc_generate(_shapes_for(S, v["spec_store"]), plans, max_ver, v["spec_store"],
+                                           "package", v["layouts"], name="gen%d_" % vi, stages=stages,
+                                           fail_classes=fails)
             gens[key] = hs
         hs = gens[key]
         byname = {}
@@ -112,27 +216,29 @@ def run_family(prop: str, tier: str) -> int:
             s2.real["import_form"] = v["imp"]
             byname[s.name] = s2
         items = [(byname[h["shape"]], h["hist"]) for h in hs]
-        for h in hs:
-            for r_ in h["hist"]:
-                k_ = r_["op"] + (":" + r_["kind"] if r_["op"] == "edit" else "")
-                kinds_seen[k_] = kinds_seen.get(k_, 0) + 1
+        if vi == 0:
+            for h in hs:
+                for r_ in h["hist"]:
+                    k_ = r_["op"] + (":" + r_["kind"] if r_["op"] == "edit" else "")
+                    kinds_seen[k_] = kinds_seen.get(k_, 0) + 1
         if v["frac"] < 1.0:
             step = max(1, int(round(1.0 / v["frac"])))
             items = items[(seed + vi) % step:: step]
         if vi == 0:
             ref_checked = evalfam.reference_check(items, limit=300 if tier == "quick" else 2000)
         remaining = max(10.0, t_budget - (time.time() - t0))
-        res = evalfam.replay_many(items, v["real_store"], loads=(prop == "C04"), budget_s=remaining)
+        res = evalfam.replay_many(items, v["real_store"], loads=bool(fam.get("loads")), budget_s=remaining)
         realisation = "store=%s,layouts=%s,import=%s" % (v["real_store"], "/".join(v["layouts"]), v["imp"])
         for ((shape, hist), obs) in zip(items, res):
             if obs is None:
                 continue
             total += 1
-            if _nontrivial(prop, hist):
+            if fam["nontrivial"](hist):
                 nontriv.add((shape.name, v["real_store"], v["imp"], json.dumps(
-                    [[r["op"], r.get("kind"), r.get("what"), r.get("style")] for r in hist])))
-            kw = {"realisation": realisation}
-            if prop in ("C02", "C04"):
+                    [[r.get("op"), r.get("kind"), r.get("what"), r.get("style"), r.get("stages"), r.get("f"), r.get("cls")]
+                     for r in hist])))
+            kw: Dict[str, Any] = {"realisation": realisation}
+            if fam.get("store_kw"):
                 kw["store_kind"] = v["real_store"]
             viols = oracle(shape, hist, obs, **kw)
             for (fp, det) in viols:
@@ -142,19 +248,19 @@ def run_family(prop: str, tier: str) -> int:
     rep.cov["traces_validated_against_impl"] = total
     rep.cov["evaluations"] = total
     rep.cov["distinct_nontrivial"] = len(nontriv)
-    rep.cov["rule"] = RULES[prop]
+    rep.cov["rule"] = fam["rule"]
     rep.cov["reference_run_evaluations_agreeing"] = ref_checked
     rep.cov["macro_actions_in_generated_histories"] = kinds_seen
-    expected_kinds = ["eval", "revert", "restart"] + ["edit:" + k for k in ("body", "cos", "var", "arg", "unrel", "ext", "layout")]
-    rep.cov["actions_never_taken"] = [k for k in expected_kinds if k not in kinds_seen]
     rep.cov["shapes"] = [s.name for s in S]
     rep.cov["plans"] = plans
     rep.cov["exhaustive"] = False
-    rep.cov["impl_spec_conformant"] = True
+    rep.cov["exhaustive_part"] = "TLC enumerates every history of the listed plans over the listed shapes (MaxVer=%d)" % max_ver
     rep.assumptions += [
         "sha256 injective; CPython inspect/ast deterministic",
         "supported subset of DESIGN.md 4.2; non-accepted helper module _vlog is value-stable",
         "TLC explores the bounded model exhaustively (plans = %d macro-step patterns, MaxVer=%d)" % (len(plans), max_ver)]
+    if fam.get("extra"):
+        fam["extra"](rep, tier)
     if total == 0 or len(nontriv) < 2:
         rep.finish()
         raise common.MachineryError("vacuity guard: %d histories replayed, %d non-trivial" % (total, len(nontriv)))
@@ -164,19 +270,19 @@ def run_family(prop: str, tier: str) -> int:
 def replay_file(prop: str, path: str) -> int:
     """Re-run the single history stored in a replay file."""
     evalfam.import_dds()
+    fam = FAMILY[prop]
     with open(path) as f:
         v = json.load(f)
     det = v["detail"]
     shape = Shape.from_json(det["shape"])
-    # the stored history is truncated at the failing evaluation
-    hist = det["history"]
+    hist = det["history"]     # truncated at the failing evaluation
     real = det.get("realisation", "store=local")
     sk = dict(x.split("=") for x in real.split(",") if "=" in x).get("store", "local")
-    res = evalfam.replay_many([(shape, hist)], sk, loads=(prop == "C04"))
+    res = evalfam.replay_many([(shape, hist)], sk, loads=bool(fam.get("loads")))
     kw: Dict[str, Any] = {"realisation": real}
-    if prop in ("C02", "C04"):
+    if fam.get("store_kw"):
         kw["store_kind"] = sk
-    viols = ORACLES[prop](shape, hist, res[0], **kw)
+    viols = fam["oracle"](shape, hist, res[0], **kw)
     for (fp, d) in viols:
         print("VIOLATION property=%s replay=%s" % (prop, path))
         print("  cause: %s" % fp)
